@@ -8,6 +8,7 @@ import (
 	"os"
 
 	"verif/harness/c04"
+	"verif/harness/c07"
 	"verif/harness/c13"
 	"verif/harness/c14"
 	"verif/harness/c16"
@@ -40,6 +41,8 @@ func main() {
 		} else {
 			c04.Run(*out)
 		}
+	case "c07":
+		c07.Run(*out)
 	case "c13":
 		if *mode == "bam" {
 			c13.RunBAM(*out)
